@@ -644,6 +644,8 @@ class Exec:
                     v = up[p[1]]
                 elif isinstance(v, Buf) and v.kind == 'string' and p[1] == 0:
                     v = Buf('vec', v.arr, v.off, v.len)
+                elif isinstance(v, (Ref, SRef)) and p[1] == 0:
+                    pass    # pointer wrappers (Unique<T>.0: NonNull<T>, NonNull<T>.0: *const T) round the pointer itself
                 else:
                     raise Inconclusive('field %d of %r' % (p[1], v))
             elif k == 'downcast':
